@@ -42,6 +42,9 @@ func runC08(c *Check, tier string) {
 	shareRule(c, "R08i", "an error channel whose sends never block (select/default) has room for at least one error (same obligation as R04d)", 1, "R04d", func(sub *Check) { ruleR04d(sub) }, func(k string) bool { return strings.Contains(k, "output/handlers") || strings.Contains(k, "caching") })
 	// round 7: a remote miss or error never turns into a hang: slots taken around cache reads are given back on the error path too
 	shareRule(c, "R08q", "every semaphore slot acquired around a cache operation is released on every path to return, the failing ones included (same obligations as R04g)", 1, "R04g", func(sub *Check) { ruleSemaphorePairing(sub, "R04g") }, nil)
+	// round 8: what a build published stays published; a broken stream is not a short blob
+	ruleBuildNeverDeletesResults(c, "R08r")
+	ruleStreamErrorIsNotEOF(c, "R08s", "caching", "output/handlers")
 }
 
 type wrapperInfo struct {
@@ -277,6 +280,17 @@ func ruleR08a(c *Check, w *wrapperInfo) {
 			lit := cl.Parent()
 			if lit == fn {
 				continue
+			}
+			// the write as a function value that returns the tier's error, run by a shared goroutine body
+			// (`go feed(..., func(r io.Reader) error { return tier.Set(...) })`): the error is handed on where
+			// that function value is called
+			if engine.ErrResultIndex(lit.Signature) >= 0 && forwardsError(lit, cl) {
+				for _, d := range c.G.CallersOf(lit) {
+					if dc, isCall := d.(*ssa.Call); isCall && d.Parent() != fn && engine.ErrResultIndex(dc.Call.Signature()) >= 0 {
+						cl, lit = d, d.Parent()
+						break
+					}
+				}
 			}
 			fwd := errForwarders(cl)
 			for f := range fwd {
